@@ -32,6 +32,29 @@ def crafted_setup(kind):
             if len(pk) != 1:
                 return orig_fate(tx)
             p = pk[0]
+            def delta(p, dm, ds, df):
+                p.minor_version = max(0, p.minor_version + dm)
+                p.max_substream_id = max(0, p.max_substream_id + ds)
+                if df < 0: p.supported_functions &= ~2
+                elif df > 0: p.supported_functions |= 0x100000
+            if kind.startswith("late-syn"):
+                _, target, dm, ds, df = kind.split(":")
+                if tx.src == ps.SERVER and p.type == 0 and p.flags & 1:
+                    mitm["synack"] = (p, tx.dst)
+                # once the handshake is over (first DATA from the client): a second SYN ack with lower values, correctly signed
+                if tx.src != ps.SERVER and p.type == 2 and not p.flags & 1 and "synack" in mitm and "done" not in mitm:
+                    mitm["done"] = True
+                    import copy
+                    q = copy.copy(mitm["synack"][0])
+                    delta(q, int(dm), int(ds), int(df))
+                    if target == "c":
+                        q.signature = enc.calc_packet_signature(q, b"", b"")
+                        net.inject(ps.SERVER, mitm["synack"][1], enc.encode(q), 0.002)
+                    else:
+                        q.source_type, q.source_port, q.dest_type, q.dest_port = q.dest_type, q.dest_port, q.source_type, q.source_port
+                        q.signature = enc.calc_packet_signature(q, b"", b"")
+                        net.inject(mitm["synack"][1], ps.SERVER, enc.encode(q), 0.002)
+                return orig_fate(tx)
             raising = kind.startswith("syn:") and any(int(x) > 0 for x in kind.split(":")[1:])
             if tx.src != ps.SERVER:
                 if raising and p.type == 1 and not p.flags & 1 and "orig" in mitm:
@@ -47,11 +70,6 @@ def crafted_setup(kind):
                 p.signature = enc.calc_packet_signature(p, b"", enc.calc_connection_signature(ps.SERVER))
                 net.inject(tx.src, tx.dst, enc.encode(p), 0.004)
                 return []
-            def delta(p, dm, ds, df):
-                p.minor_version = max(0, p.minor_version + dm)
-                p.max_substream_id = max(0, p.max_substream_id + ds)
-                if df < 0: p.supported_functions &= ~2
-                elif df > 0: p.supported_functions |= 0x100000
             if kind.startswith(("syn:", "con:")):
                 which, dm, ds, df = kind.split(":")
                 if not ((p.type == 0 and which == "syn") or (p.type == 1 and which == "con")) or not p.flags & 1:
@@ -180,11 +198,13 @@ def work(args):
             cfg = ps.Cfg(version=1, max_substream=2, minor_version=3, supported_functions=0x0F, resend_limit=1, resend_timeout=0.5)
             cfgs = ps.Cfg(version=1, max_substream=2, minor_version=3, supported_functions=0x0F, resend_limit=1, resend_timeout=0.5)
             script = [[("c", 0, b"ping")]]
+            if c.startswith("late-syn"):
+                script = [[("c", 0, b"ping")], [(side, sub, b"after:%d" % sub + side.encode()) for sub in range(3) for side in "cs"]]
             setup = crafted_setup(c)
         sess = ps.run_session(cfg, seed & 0xFFFF, script, lambda sim, r: (lambda tx: [0.004]), cfg_s=cfgs, setup=setup, phases_gap=0.25)
         # ---- oracle on the real code
         bad = []
-        snap = sess.checkpoints[0]["ep"] if sess.checkpoints else {}
+        snap = sess.checkpoints[-1 if (kind == "crafted" and c.startswith("late-syn")) else 0]["ep"] if sess.checkpoints else {}
         pc, psv = snap.get("c", {}).get("params"), snap.get("s", {}).get("params")
         connected = sess.connect_error is None and pc is not None
         if kind == "grid":
@@ -235,6 +255,19 @@ def work(args):
                 # control: a re-signed but unchanged ack must be accepted (the crafting itself is sound)
                 if not connected:
                     bad.append("re-signed unchanged %s was refused: %s" % (c, sess.connect_error))
+            elif c.startswith("late-syn"):
+                # the negotiation is fixed by the handshake: a later, correctly signed SYN ack with other values changes nothing
+                want = (3, 2, 0x0F)
+                if not connected:
+                    bad.append("handshake failed in the %s scenario: %s" % (c, sess.connect_error))
+                elif pc != want or psv != want:
+                    bad.append("after the handshake a contradicting SYN ack (%s) changed the negotiated parameters: client reports %r, server reports %r, agreed %r" % (c, pc, psv, want))
+                else:
+                    for sub in range(3):
+                        for side in "cs":
+                            other = "s" if side == "c" else "c"
+                            if (b"after:%d" % sub + other.encode()) not in sess.got.get((side, sub), []):
+                                bad.append("after a contradicting SYN ack (%s) substream %d towards %s no longer carries data" % (c, sub, side))
             elif c.startswith("syn:") and not any(int(x) > 0 for x in c.split(":")[1:]):
                 # an ack that only lowers the offer is a legitimate answer: both sides must end up with exactly the lowered values
                 dm, ds, df = (int(x) for x in c.split(":")[1:])
@@ -290,6 +323,9 @@ def cases(rng, quick):
                 for df in (-1, 0, 1):
                     if (dm, ds, df) != (0, 0, 0):
                         out.append(("crafted", "%s:%d:%d:%d" % (which, dm, ds, df), None))
+    for target in "cs":
+        for d in ((-1, 0, 0), (0, -1, 0), (0, 0, -1), (-1, -1, -1), (-3, -2, 0)):
+            out.append(("crafted", "late-syn:%s:%d:%d:%d" % ((target,) + d), None))
     lt3 = [(3, 0x0F, 0), (6, 0xFFFFFF, 1), (0, 0, 3), (4, 0xF0, 2)]
     for c in lt3:
         for s_ in lt3:
@@ -304,7 +340,7 @@ def run(ctx):
     cs = cases(ctx.rng, quick)
     ctx.rule = ("handshakes between real endpoints for (minor 0..6) x (max substream 0..3) x (function mask in {0,1,0x0F,0xA5A5A5,0xFFFFFF}) "
                 "for client and server (all 19600 pairs in the thorough tier; every triple on both sides + corners in quick), all 9 prudp.version "
-                "pairs, lite (also with max_substream_id > 0 on either side), 9 + 52 crafted SYN/CONNECT acks (every combination of lowering / keeping / raising the three parameters), and sequences of 3..6 clients of different capabilities (weak ones first, v0 among them) visiting one "
+                "pairs, lite (also with max_substream_id > 0 on either side), 9 + 52 crafted SYN/CONNECT acks (every combination of lowering / keeping / raising the three parameters; contradicting SYN acks sent to either side after the handshake), and sequences of 3..6 clients of different capabilities (weak ones first, v0 among them) visiting one "
                 "dual-stack server port with interleaved handshakes (each must negotiate the meet of its own and the server's configuration); each UDP session is replayed through the Lean L1 model (every datagram byte- and "
                 "tick-exact); distinct non-trivial = distinct (kind, client, server) configurations")
     jobs = [(i, k, c, s, ctx.rng.getrandbits(32)) for i, (k, c, s) in enumerate(cs)]
